@@ -15,6 +15,13 @@ RULE = ("Score tensors N<=5 x C<=7 x T<=14 built from a drawn arg-max path per l
 ASSUMPTIONS = ["arg-max ties are outside the statement (torch and numpy break them differently): maxima are unique by construction"]
 
 CHARS = list("abcdefgh")
+# character tables as models of other scripts carry them: zero-width space / joiners, a space, a combining mark
+TABLES = [CHARS, CHARS, ["a", "\u200b", "b", "\u200c", " ", "c", "\u0301", "d"],
+          ["\u1780", "\u1781", "\u17d2", "\u200b", "\u1782", " ", "\u200d", "\u0644"]]
+
+
+def table_for(seed):
+    return TABLES[seed % len(TABLES)]
 
 
 def ref_collapse(path, blank, chars):
@@ -123,8 +130,11 @@ def body_decode(ctx, case):
     if not ok:
         ctx.event("construction_rejected")
         return
-    chars = CHARS[:C - 1] + ["​"]
+    tab = table_for(seed)
+    chars = tab[:C - 1] + ["​"]
     want = [ref_collapse(p, blank, chars) for p in paths]
+    if tab is not CHARS:
+        ctx.event("table_with_zero_width_or_space_characters")
     t_in = torch.from_numpy(sc.copy())
     got = ctx.must("greedy_decode_ctc_raises", greedy_decode_ctc, t_in, chars)
     ctx.check(bool(torch.equal(t_in, torch.from_numpy(sc))), "decoder_modifies_its_input", lambda: "C=%d paths=%r" % (C, paths))
@@ -132,7 +142,7 @@ def body_decode(ctx, case):
     ctx.check(list(again) == list(got), "second_decoding_differs", lambda: "C=%d paths=%r %r vs %r" % (C, paths, got, again))
     ctx.check(list(got) == want, "batched_greedy_not_collapse_of_argmax",
               lambda: "C=%d paths=%r got %r want %r" % (C, paths, got, want))
-    dec = GreedyDecoder(CHARS[:C - 1] + [BLANK_SYMBOL])
+    dec = GreedyDecoder(tab[:C - 1] + [BLANK_SYMBOL])
     for n, p in enumerate(paths):
         x = sc[n].T.astype(np.float64)
         lp = x - x.max(axis=1, keepdims=True)
@@ -147,18 +157,19 @@ def body_decode(ctx, case):
 _ENG = {}
 
 
-def get_engine(C):
+def get_engine(C, seed=0):
     from vlib.stubs import make_pytorch_engine
-    if C not in _ENG:
-        _ENG[C] = make_pytorch_engine(CHARS[:C - 1], 16)
-    return _ENG[C]
+    key = (C, seed % len(TABLES))
+    if key not in _ENG:
+        _ENG[key] = make_pytorch_engine(table_for(seed)[:C - 1], 16)
+    return _ENG[key]
 
 
 def body_engine(ctx, case):
     from vlib.stubs import paint_logits
     C, paths, margin, seed = case
     blank = C - 1
-    eng = get_engine(C)
+    eng = get_engine(C, seed)
     rs = np.random.RandomState(seed)
     N, T = len(paths), len(paths[0])
     imgs = []
